@@ -93,7 +93,7 @@ def check_conv(ctx, dn, G, m, name, make, hmodel, alt=None):
     h = hmodel
     if alt is not None:
         key, hdev = alt
-        ts = audit.instants(h, rng=ctx.rng)
+        ts = h.window(1)
         if not presence_matches(H, h, ts) and hdev.P != h.P and presence_matches(H, hdev, ts):
             ctx.count("conv:presence")
             ctx.finding("conv:presence", "known:" + key, dict(detail, note="presence equals the deviant model exactly"))
